@@ -19,6 +19,7 @@ def jobs(res):
         engine.export_family("q")
         engine.export_family("t3s")
         engine.export_family("n4")
+        engine.export_family("c4")
 
     return [
         shell,
